@@ -1,10 +1,441 @@
 import Poulpy.Model.Ring
 import Poulpy.Model.Galois
+import Poulpy.Lemmas.RingWrap
+import Poulpy.Lemmas.RingRotate
+import Poulpy.Lemmas.RingAuto
+import Poulpy.Lemmas.RingSwitch
+import Poulpy.Lemmas.RingVec
+import Poulpy.Lemmas.Galois
 
-/-! # C09 — coefficient-domain ring operations (placeholder, theorems follow) -/
+/-!
+# C09 — coefficient-domain ring operations match `Z[X]/(X^N+1)` exactly
+
+All statements are about the definitions of `Model/Ring.lean` / `Model/Galois.lean` that the
+driver executes (`znxRotate = znxRotateW w64`, …).  Vocabulary from the lemma files:
+
+* `coeffZ w a k` — coefficient `k ∈ ℤ` of the negacyclic (`X^n = -1`) extension of the list `a`:
+  `a[k mod 2n]` if `k mod 2n < n`, else the wrapped negation of `a[k mod 2n - n]`;
+* `I64 x` / `I128 x` — `x` is an `i64` / `i128` value; `AllP I64 a` — every coefficient of `a` is;
+* `NegOn w P` — on the scalars satisfying `P` the wrapped negation `x ↦ w (-x)` is an involution that
+  stays in `P` (`negOn64`, `negOn128`, `negOnZ` for `w64`, `w128`, `id`): the generic theorems in
+  `Lemmas/` hold for the three scalar domains at once; here they are instantiated for `i64` limbs
+  (the `i128` big accumulator and the exact ring are the same proofs with `negOn128` / `negOnZ`);
+* `GalOk g n` — `g` odd and `g mod 2n` coprime to `n` (`galOk_pow2`: every odd `g` when `n = 2^k`).
+
+Wrapping: the digit range is the whole `i64` range; `-i64::MIN = i64::MIN` is part of the model, so
+the group laws hold on *every* `i64` buffer, not just under a head-room hypothesis.
+-/
 
 namespace C09
 
-theorem placeholder : znxRotate 1 [1, 2, 3, 4] = [-4, 1, 2, 3] := by decide
+/-! ## rotation: multiplication by `X^p` -/
+
+theorem rotate_length (p : Int) (a : Poly) : (znxRotate p a).length = a.length := _root_.rotate_length w64 p a
+
+/-- `rotate_spec`: for all `p ∈ ℤ`, all `n ≥ 1`, coefficient `j` of `X^p·a` is `±a[(j-p) mod n]`, the
+sign being `-` exactly when `(j - p) mod 2n ≥ n`. -/
+theorem rotate_spec (p : Int) (a : Poly) (j : Nat) (hj : j < a.length) :
+    (znxRotate p a).getD j 0 =
+      (if ((j : Int) - p) % (2 * (a.length : Int)) < a.length
+        then a.getD (((j : Int) - p) % (2 * (a.length : Int))).toNat 0
+        else w64 (-(a.getD ((((j : Int) - p) % (2 * (a.length : Int))).toNat - a.length) 0))) := by
+  rw [show znxRotate p a = znxRotateW w64 p a from rfl, rotate_getD w64 p a j hj]
+  unfold coeffZ
+  dsimp only
+  have h0 : 0 ≤ ((j : Int) - p) % (2 * (a.length : Int)) := Int.emod_nonneg _ (by omega)
+  by_cases h : ((j : Int) - p) % (2 * (a.length : Int)) < a.length
+  · have : (((j : Int) - p) % (2 * (a.length : Int))).toNat < a.length := by omega
+    simp [h, this]
+  · have : ¬ (((j : Int) - p) % (2 * (a.length : Int))).toNat < a.length := by omega
+    simp [h, this]
+
+example : znxRotate (-3) [1, 2, 3, 4] = [4, -1, -2, -3] := by decide
+example : (znxRotate 5 [1, 2, 3, -2 ^ 63]).getD 0 0 = -2 ^ 63 := by decide
+
+/-- `rotate_spec` on the whole extension: coefficient `k` of `X^p·a` is coefficient `k - p` of `a`, all `k, p ∈ ℤ`. -/
+theorem rotate_spec_ext (p : Int) (a : Poly) (ha : AllP I64 a) (hn : 0 < a.length) (k : Int) :
+    coeffZ w64 (znxRotate p a) k = coeffZ w64 a (k - p) := rotate_coeffZ negOn64 p a ha hn k
+
+/-- `rotate_add`: `X^p · (X^q · a) = X^{p+q} · a` on every `i64` buffer -/
+theorem rotate_add (p q : Int) (a : Poly) (ha : AllP I64 a) :
+    znxRotate p (znxRotate q a) = znxRotate (p + q) a := _root_.rotate_add negOn64 p q a ha
+
+example : AllP I64 [1, -2 ^ 63, 3, 2 ^ 63 - 1] := by
+  intro x hx; simp at hx; rcases hx with rfl | rfl | rfl | rfl <;> (unfold I64; omega)
+
+/-- the same law in the exact ring (no wrapping, no range hypothesis) -/
+theorem rotate_add_exact (p q : Int) (a : Poly) :
+    znxRotateW id p (znxRotateW id q a) = znxRotateW id (p + q) a :=
+  _root_.rotate_add negOnZ p q a (fun _ _ => trivial)
+
+/-- `rotate_2N`: `X^{2N·m} = 1` -/
+theorem rotate_2N (m : Int) (a : Poly) : znxRotate (2 * (a.length : Int) * m) a = a := _root_.rotate_2N w64 m a
+
+example : znxRotate 8 [1, 2, 3, 4] = [1, 2, 3, 4] := by decide
+
+/-- `rotate_neg_inv`: `X^{-p}` undoes `X^p` -/
+theorem rotate_neg_inv (p : Int) (a : Poly) (ha : AllP I64 a) : znxRotate (-p) (znxRotate p a) = a :=
+  _root_.rotate_neg_inv negOn64 p a ha
+
+/-- `X^N = -1` (wrapped negation) -/
+theorem rotate_N (a : Poly) (ha : AllP I64 a) : znxRotate (a.length : Int) a = znxNegate a :=
+  _root_.rotate_N negOn64 a ha
+
+/-- `rotate` only depends on `p mod 2N` (what the masks `p & (2n-1)` compute) -/
+theorem rotate_mod (p q : Int) (a : Poly) (h : p % (2 * (a.length : Int)) = q % (2 * (a.length : Int))) :
+    znxRotate p a = znxRotate q a := rotate_congr w64 p q a h
+
+/-- buffers of `i64` stay buffers of `i64` -/
+theorem rotate_range (p : Int) (a : Poly) (ha : AllP I64 a) : AllP I64 (znxRotate p a) := rotate_allP negOn64 p ha
+
+/-! ## multiplication by `X^p - 1` -/
+
+/-- `mul_xp_minus_one = rotate − id`, with the size rule (limbs absent from `a` are zero) -/
+theorem mul_xp_minus_one_spec (p : Int) (n resSize : Nat) (a : Col) (j : Nat) (hj : j < resSize) :
+    (vecMulXpMinusOne p n resSize a)[j]?
+      = some (match a[j]? with | some x => znxSub (znxRotate p x) x | none => znxZero n) :=
+  (vecMulXpMinusOneW_rule w64 p n resSize a j hj).trans (by cases a[j]? <;> rfl)
+
+theorem mul_xp_minus_one_assign_spec (p : Int) (res : Col) :
+    vecMulXpMinusOneAssignW w64 p res = res.map (fun r => znxSub (znxRotate p r) r) := rfl
+
+example : vecMulXpMinusOne 1 2 2 [[5, 7]] = [[-12, -2], [0, 0]] := by decide
+
+/-! ## Galois automorphisms `X ↦ X^g` -/
+
+/-- `automorphism_spec` (extension form): for `N = 2^k`, odd `g`, any `i64` buffer: coefficient
+`i·g` of `σ_g a` is coefficient `i` of `a`, for all `i ∈ ℤ`. -/
+theorem automorphism_spec (k : Nat) (g : Int) (hg : g % 2 = 1) (a : Poly) (hl : a.length = 2 ^ k) (ha : AllP I64 a)
+    (i : Int) : coeffZ w64 (znxAutomorphism g a) (i * g) = coeffZ w64 a i :=
+  auto_coeffZ negOn64 g a (by rw [hl]; positivity) ha (by rw [hl]; exact galOk_pow2 k hg) i
+
+/-- `automorphism_spec` (index form): `res[(i·g) mod n] = ± a[i]`, sign negative exactly when
+`(i·g) mod 2n ≥ n`; whatever the result buffer contained before. -/
+theorem automorphism_spec_index (k : Nat) (g : Int) (hg : g % 2 = 1) (res0 a : Poly) (hl : a.length = 2 ^ k)
+    (hr : res0.length = a.length) (i : Nat) (hi : i < a.length) :
+    (znxAutomorphismIntoW w64 g res0 a)[(i * (g % (2 * (a.length : Int))).toNat) % (2 * a.length) % a.length]?
+      = some (if (i * (g % (2 * (a.length : Int))).toNat) % (2 * a.length) < a.length then a.getD i 0
+              else w64 (-(a.getD i 0))) :=
+  autoInto_get w64 g res0 a (by rw [hl]; positivity) hr (by rw [hl]; exact (galOk_pow2 k hg).2) i hi
+
+example : znxAutomorphism 3 [1, 2, 3, 4] = [1, 4, -3, 2] := by decide
+example : znxAutomorphism (-1) [1, 2, 3, 4] = [1, -4, -3, -2] := by decide
+
+theorem automorphism_length (g : Int) (a : Poly) : (znxAutomorphism g a).length = a.length := auto_length w64 g a
+
+/-- `automorphism_comp`: `σ_g ∘ σ_h = σ_{g·h}` (hence `σ_{gh mod 2N}`, by `automorphism_mod`) -/
+theorem automorphism_comp (k : Nat) (g h : Int) (hg : g % 2 = 1) (hh : h % 2 = 1) (a : Poly) (hl : a.length = 2 ^ k)
+    (ha : AllP I64 a) : znxAutomorphism g (znxAutomorphism h a) = znxAutomorphism (g * h) a :=
+  auto_comp negOn64 g h a (by rw [hl]; positivity) ha (by rw [hl]; exact galOk_pow2 k hg) (by rw [hl]; exact galOk_pow2 k hh)
+
+theorem automorphism_mod (g h : Int) (a : Poly) (e : g % (2 * (a.length : Int)) = h % (2 * (a.length : Int))) :
+    znxAutomorphism g a = znxAutomorphism h a := auto_congr w64 g h a e
+
+theorem automorphism_one (a : Poly) (ha : AllP I64 a) : znxAutomorphism 1 a = a := auto_one negOn64 a ha
+
+/-- `automorphism_inv`: the element returned by `galois_element_inv` undoes `σ_g` (`2N = 2^{k+1} ≤ 2^64`) -/
+theorem automorphism_inv (k : Nat) (hk : k + 1 ≤ 64) (g g' : Int) (hg : g % 2 = 1) (a : Poly) (hl : a.length = 2 ^ k)
+    (ha : AllP I64 a) (hinv : galoisElementInv g (cyclotomicOrder a.length) = .ok g') :
+    znxAutomorphism g' (znxAutomorphism g a) = a := by
+  have hord : cyclotomicOrder a.length = 2 ^ (k + 1) := by unfold cyclotomicOrder; rw [hl]; push_cast; ring
+  rw [hord] at hinv
+  have hmul := galoisElementInv_mul g hg (k + 1) hk g' hinv
+  have hpos : 0 < a.length := by rw [hl]; positivity
+  have hg' : g' % 2 = 1 := by
+    have h2 : (g' * g) % 2 = 1 := by
+      have h3 : (g' * g) % 2 ^ (k + 1) % 2 = 1 % 2 ^ (k + 1) % 2 := by rw [hmul]
+      rw [Int.emod_emod_of_dvd _ (dvd_pow_self 2 (by omega)), Int.emod_emod_of_dvd _ (dvd_pow_self 2 (by omega))] at h3
+      simpa using h3
+    rcases Int.emod_two_eq g' with h0 | h1
+    · rw [Int.mul_emod, h0] at h2; simp at h2
+    · exact h1
+  refine auto_inv negOn64 g g' a hpos ha (by rw [hl]; exact galOk_pow2 k hg) (by rw [hl]; exact galOk_pow2 k hg') ?_
+  have : (2 * (a.length : Int)) = 2 ^ (k + 1) := by rw [hl]; push_cast; ring
+  rw [this]; exact hmul
+
+example : galoisElementInv 3 (cyclotomicOrder 4) = .ok 3 := by
+  rw [show cyclotomicOrder 4 = 2 ^ 3 from rfl, galoisElementInv_spec 3 _ (by decide) (pow_dvd_pow 2 (by norm_num))]; rfl
+example : znxAutomorphism 3 (znxAutomorphism 3 [1, 2, 3, 4]) = [1, 2, 3, 4] := by decide
+
+/-- `σ_g (X^p · a) = X^{p·g} · σ_g a` -/
+theorem automorphism_rotate (k : Nat) (g p : Int) (hg : g % 2 = 1) (a : Poly) (hl : a.length = 2 ^ k) (ha : AllP I64 a) :
+    znxAutomorphism g (znxRotate p a) = znxRotate (p * g) (znxAutomorphism g a) :=
+  auto_rotate negOn64 g p a (by rw [hl]; positivity) ha (by rw [hl]; exact galOk_pow2 k hg)
+
+/-- for odd `g` the previous content of the result buffer does not matter … -/
+theorem automorphism_overwrites (k : Nat) (g : Int) (hg : g % 2 = 1) (res0 a : Poly) (hl : a.length = 2 ^ k)
+    (hr : res0.length = a.length) (h0 : AllP I64 res0) (ha : AllP I64 a) :
+    znxAutomorphismIntoW w64 g res0 a = znxAutomorphism g a :=
+  autoInto_eq_auto negOn64 g res0 a (by rw [hl]; positivity) hr h0 ha (by rw [hl]; exact galOk_pow2 k hg)
+
+/-- … whereas an even `g` is inadmissible: the kernel is not a permutation, coefficients that are not
+hit keep the previous content of the buffer (here positions 1 and 3), and the guard `GalOk` fails. -/
+theorem automorphism_even_inadmissible :
+    znxAutomorphismIntoW w64 2 [9, 9, 9, 9] [1, 2, 3, 4] = [-3, 9, -4, 9] ∧ ¬ GalOk 2 4 := by
+  refine ⟨by decide, ?_⟩
+  intro h; have := h.1; omega
+
+/-! ## Galois elements (`layouts/module.rs`) -/
+
+/-- `galois_element(t) = sign(t)·(5^{|t|} mod 2N)`, `1` for `t = 0` -/
+theorem galois_element_spec (t : Int) (K : Nat) (hK : K ≤ 64) :
+    galoisElement t (2 ^ K) = .ok (if t = 0 then 1 else 5 ^ t.natAbs % 2 ^ K * t.sign) := by
+  apply galoisElement_spec t _ _ (pow_dvd_pow 2 hK)
+  unfold isPow2Int
+  have hp : (0 : Int) < 2 ^ K := by positivity
+  have e : ((2 : Int) ^ K).toNat = 2 ^ K := by
+    have : ((2 : Int) ^ K) = ((2 ^ K : Nat) : Int) := by push_cast; rfl
+    rw [this]; rfl
+  simp only [hp, decide_true, Bool.true_and, e, beq_iff_eq]
+  exact Nat.and_two_pow_sub_one_eq_mod (2 ^ K) K ▸ (by simp)
+
+/-- the library's signed generator convention: `galois_element(-t) = -(5^t mod 2N)` for `t > 0` -/
+theorem galois_element_neg (t : Nat) (ht : 0 < t) (K : Nat) (hK : K ≤ 64) :
+    galoisElement (-(t : Int)) (2 ^ K) = .ok (-(5 ^ t % 2 ^ K)) := by
+  rw [galois_element_spec _ K hK]
+  have h1 : (-(t : Int)) ≠ 0 := by omega
+  have h2 : (-(t : Int)).sign = -1 := Int.sign_eq_neg_one_of_neg (by omega)
+  simp [h1, h2]
+
+example : galoisElement (-3) (2 ^ 4) = .ok (-13) := by
+  have := galois_element_neg 3 (by norm_num) 4 (by norm_num)
+  simpa using this
+
+/-- `galois_element_inv(g)·g ≡ 1 (mod 2N)` for odd `g` -/
+theorem galois_element_inv_mul (g : Int) (hg : g % 2 = 1) (K : Nat) (hK : K ≤ 64) (h : Int)
+    (hh : galoisElementInv g (2 ^ K) = .ok h) : (h * g) % 2 ^ K = 1 % 2 ^ K := galoisElementInv_mul g hg K hK h hh
+
+theorem galois_element_inv_zero (m : Int) : galoisElementInv 0 m = .panic "other" := rfl
+
+/-- `mod_exp_u64(x, e) ≡ x^e (mod 2^64)` -/
+theorem mod_exp_u64_spec (x : Int) (e : Nat) : modExpU64 x e % 2 ^ 64 = x ^ e % 2 ^ 64 := modExpU64_modEq x e
+
+/-! ## ring-degree switching -/
+
+/-- `switch_ring` up by `gap` is `X ↦ X^gap`: coefficient `k·gap + r` is `a[k]` for `r = 0`, else `0` -/
+theorem switch_ring_up (gap : Nat) (hg : 2 ≤ gap) (a : Poly) (hn : 0 < a.length) (k r : Nat) (hk : k < a.length)
+    (hr : r < gap) :
+    (znxSwitchRing (a.length * gap) a)[k * gap + r]? = some (if r = 0 then a.getD k 0 else 0) := by
+  rw [switch_up_eq gap hg a hn]; exact upsample_getElem? gap (by omega) a k r hk hr
+
+theorem switch_ring_up_length (gap : Nat) (hg : 2 ≤ gap) (a : Poly) (hn : 0 < a.length) :
+    (znxSwitchRing (a.length * gap) a).length = a.length * gap := by
+  rw [switch_up_eq gap hg a hn]; exact upsample_length gap (by omega) a
+
+/-- `switch_ring` down by `gap` is sub-sampling: `res[m] = a[m·gap]` -/
+theorem switch_ring_down (nOut gap : Nat) (hO : 0 < nOut) (hg : 2 ≤ gap) (a : Poly) (ha : a.length = nOut * gap)
+    (m : Nat) (hm : m < nOut) : (znxSwitchRing nOut a)[m]? = a[m * gap]? :=
+  switch_down_getElem? nOut gap hO hg a ha m hm
+
+theorem switch_ring_same (a : Poly) : znxSwitchRing a.length a = a := by simp [znxSwitchRing]
+
+/-- down after up is the identity -/
+theorem switch_ring_down_up (gap : Nat) (hg : 2 ≤ gap) (a : Poly) (hn : 0 < a.length) :
+    znxSwitchRing a.length (znxSwitchRing (a.length * gap) a) = a := switch_down_up gap hg a hn
+
+example : znxSwitchRing 8 [1, 2, 3, 4] = [1, 0, 2, 0, 3, 0, 4, 0] := by decide
+example : znxSwitchRing 2 [1, 2, 3, 4, 5, 6, 7, 8] = [1, 5] := by decide
+
+/-- the entry assertions of the kernel: `n_in` a power of two and the degrees dividing one another -/
+theorem switch_ring_guard (nOut : Nat) (a : Poly) (h : isPow2 a.length = true)
+    (hd : max a.length nOut % min a.length nOut = 0) : znxSwitchRingO nOut a = .ok (znxSwitchRing nOut a) := by
+  unfold znxSwitchRingO; simp [h, hd]
+
+/-! ## splitting and merging -/
+
+/-- part `i` of a split holds the coefficients `≡ i (mod gap)`: no sign, no wrap -/
+theorem split_ring_coeff (nOut gap : Nat) (hO : 0 < nOut) (hg : 2 ≤ gap) (a : Col) (ha : ∀ l ∈ a, l.length = nOut * gap)
+    (sizes : List Nat) (i : Nat) (hi : i < gap) (his : i < sizes.length) (j : Nat) (hj : j < min (sizes.getD i 0) a.length)
+    (m : Nat) (hm : m < nOut) :
+    ((((vecSplitRing nOut sizes a)[i]?).getD [])[j]?.getD [])[m]? = ((a[j]?).getD [])[m * gap + i]? := by
+  have hja : j < a.length := by omega
+  rw [vecSplitRing_getElem?, List.getElem?_eq_getElem his]
+  simp only [Option.map_some, Option.getD_some]
+  have e : sizes.getD i 0 = sizes[i] := by rw [List.getD_eq_getElem?_getD, List.getElem?_eq_getElem his]; rfl
+  rw [e] at hj
+  rw [splitPart_getElem?_lt _ _ _ _ _ hj, List.getElem?_eq_getElem hja]
+  simp only [Option.map_some, Option.getD_some]
+  exact split_coeff nOut gap hO hg _ (ha _ (List.getElem_mem hja)) i hi m hm
+
+/-- **`split_merge_id`, first half: `merge (split a) = a`** (each part at least as long as `a`) -/
+theorem merge_split_id (nOut gap : Nat) (hO : 0 < nOut) (hg : 2 ≤ gap) (a : Col) (ha : ∀ l ∈ a, l.length = nOut * gap)
+    (sizes : List Nat) (hs : sizes.length = gap) (hsz : ∀ s ∈ sizes, a.length ≤ s) :
+    vecMergeRings nOut a.length (vecSplitRing nOut sizes a) = a :=
+  _root_.merge_split_id nOut gap hO hg a ha sizes hs hsz
+
+/-- general sizes: limbs a part does not have read as zero (size rule of split followed by merge) -/
+theorem merge_split_sizes (nOut gap : Nat) (hO : 0 < nOut) (hg : 2 ≤ gap) (a : Col) (ha : ∀ l ∈ a, l.length = nOut * gap)
+    (sizes : List Nat) (hs : sizes.length = gap) (resSize j : Nat) (hj : j < resSize) (i k : Nat) (hi : i < gap)
+    (hk : k < nOut) :
+    ((vecMergeRings nOut resSize (vecSplitRing nOut sizes a))[j]?.getD [])[k * gap + i]?
+      = some (if j < min (sizes.getD i 0) a.length then ((a[j]?).getD []).getD (k * gap + i) 0 else 0) :=
+  merge_split_coeff nOut gap hO hg a ha sizes hs resSize j hj i k hi hk
+
+/-- **second half: `split (merge parts) = parts`** -/
+theorem split_merge_id (nOut : Nat) (hO : 0 < nOut) (parts : List Col) (hg : 2 ≤ parts.length) (s : Nat)
+    (hsz : ∀ p ∈ parts, p.length = s) (hl : ∀ p ∈ parts, ∀ l ∈ p, l.length = nOut) :
+    vecSplitRing nOut (List.replicate parts.length s) (vecMergeRings nOut s parts) = parts :=
+  _root_.split_merge_id nOut hO parts hg s hsz hl
+
+example : vecSplitRing 2 [1, 1] [[1, 2, 3, 4]] = [[[1, 3]], [[2, 4]]] := by decide
+example : vecMergeRings 2 1 [[[1, 3]], [[2, 4]]] = [[1, 2, 3, 4]] := by decide
+example : vecMergeRings 2 2 (vecSplitRing 2 [2, 3] [[1, 2, 3, 4], [5, 6, 7, 8]]) = [[1, 2, 3, 4], [5, 6, 7, 8]] := by decide
+
+/-! ## size rule of the vec-level operations
+
+`resSize` limbs are produced; limb `j` depends only on limb `j` of the operands; limbs an operand
+does not have count as absent (for add/sub/copy/negate this is the same as a zero limb, extra
+operand limbs beyond `resSize` are ignored). -/
+
+theorem add_size_rule (n resSize : Nat) (a b : Col) (j : Nat) (hj : j < resSize) :
+    (vecAdd n resSize a b).length = resSize ∧
+    (vecAdd n resSize a b)[j]? = some (match a[j]?, b[j]? with
+      | some x, some y => znxAdd x y
+      | some x, none => x
+      | none, some y => y
+      | none, none => znxZero n) := by
+  rw [show vecAdd n resSize a b = vecAddW w64 n resSize a b from rfl, vecAddW_eq]
+  exact ⟨binCol_length _ _ _ _ _ _ _, (binCol_rule _ _ _ _ _ _ _ j hj).trans (by cases a[j]? <;> cases b[j]? <;> rfl)⟩
+
+theorem sub_size_rule (n resSize : Nat) (a b : Col) (j : Nat) (hj : j < resSize) :
+    (vecSub n resSize a b).length = resSize ∧
+    (vecSub n resSize a b)[j]? = some (match a[j]?, b[j]? with
+      | some x, some y => znxSub x y
+      | some x, none => x
+      | none, some y => znxNegate y
+      | none, none => znxZero n) := by
+  rw [show vecSub n resSize a b = vecSubW w64 n resSize a b from rfl, vecSubW_eq]
+  exact ⟨binCol_length _ _ _ _ _ _ _, (binCol_rule _ _ _ _ _ _ _ j hj).trans (by cases a[j]? <;> cases b[j]? <;> rfl)⟩
+
+example : vecAdd 1 3 [[1]] [[10], [20]] = [[11], [20], [0]] := by decide
+example : vecSub 1 3 [[1]] [[10], [20]] = [[-9], [-20], [0]] := by decide
+example : vecSub 1 1 [[1], [2]] [[10]] = [[-9]] := by decide
+
+/-- `_assign` forms: `res` keeps its size; only the limbs `a` has are touched -/
+theorem add_assign_size_rule (res a : Col) (j : Nat) :
+    (vecAddAssignW w64 res a).length = res.length ∧
+    (vecAddAssignW w64 res a)[j]? = (res[j]?).map (fun r => match a[j]? with | some x => znxAdd r x | none => r) := by
+  rw [vecAddAssignW_eq]
+  exact ⟨assignCol_length _ _ _ _, (assignCol_rule _ _ _ _ j).trans (by cases res[j]? <;> cases a[j]? <;> rfl)⟩
+
+theorem sub_assign_size_rule (res a : Col) (j : Nat) :
+    (vecSubAssignW w64 res a).length = res.length ∧
+    (vecSubAssignW w64 res a)[j]? = (res[j]?).map (fun r => match a[j]? with | some x => znxSub r x | none => r) := by
+  rw [vecSubAssignW_eq]
+  exact ⟨assignCol_length _ _ _ _, (assignCol_rule _ _ _ _ j).trans (by cases res[j]? <;> cases a[j]? <;> rfl)⟩
+
+/-- `sub_negate_assign`: `res = a - res`; limbs of `res` beyond `a` are negated -/
+theorem sub_negate_assign_size_rule (res a : Col) (j : Nat) :
+    (vecSubNegateAssignW w64 res a).length = res.length ∧
+    (vecSubNegateAssignW w64 res a)[j]?
+      = (res[j]?).map (fun r => match a[j]? with | some x => znxSub x r | none => znxNegate r) := by
+  rw [vecSubNegateAssignW_eq]
+  exact ⟨assignCol_length _ _ _ _, (assignCol_rule _ _ _ _ j).trans (by cases res[j]? <;> cases a[j]? <;> rfl)⟩
+
+example : vecSubNegateAssignW w64 [[1], [2]] [[10]] = [[9], [-2]] := by decide
+
+/-- unary operations: `f` on the limbs `a` has, zero limbs after -/
+theorem unary_size_rules (n resSize : Nat) (a : Col) (p : Int) (j : Nat) (hj : j < resSize) :
+    (vecCopy n resSize a)[j]? = some (match a[j]? with | some x => x | none => znxZero n) ∧
+    (vecNegate n resSize a)[j]? = some (match a[j]? with | some x => znxNegate x | none => znxZero n) ∧
+    (vecRotate p n resSize a)[j]? = some (match a[j]? with | some x => znxRotate p x | none => znxZero n) ∧
+    (vecAutomorphism p n resSize a)[j]? = some (match a[j]? with | some x => znxAutomorphism p x | none => znxZero n) ∧
+    (vecSwitchRing n resSize a)[j]? = some (match a[j]? with | some x => znxSwitchRing n x | none => znxZero n) ∧
+    (vecZero n resSize)[j]? = some (znxZero n) := by
+  refine ⟨?_, ?_, ?_, ?_, ?_, ?_⟩
+  · have := unary_rule (fun x : Poly => x) (znxZero n) resSize a j hj
+    rw [List.map_id'] at this
+    exact this.trans (by cases a[j]? <;> rfl)
+  · exact (unary_rule (znxNegateW w64) (znxZero n) resSize a j hj).trans (by cases a[j]? <;> rfl)
+  · exact (unary_rule (znxRotateW w64 p) (znxZero n) resSize a j hj).trans (by cases a[j]? <;> rfl)
+  · exact (unary_rule (znxAutomorphismW w64 p) (znxZero n) resSize a j hj).trans (by cases a[j]? <;> rfl)
+  · have := unary_rule (znxSwitchRing n) (znxZero n) resSize a j hj
+    rw [Nat.min_comm] at this
+    exact this.trans (by cases a[j]? <;> rfl)
+  · simp [vecZero, hj]
+
+theorem unary_lengths (n resSize : Nat) (a : Col) (p : Int) :
+    (vecCopy n resSize a).length = resSize ∧ (vecNegate n resSize a).length = resSize ∧
+    (vecRotate p n resSize a).length = resSize ∧ (vecAutomorphism p n resSize a).length = resSize ∧
+    (vecSwitchRing n resSize a).length = resSize ∧ (vecZero n resSize).length = resSize := by
+  refine ⟨?_, ?_, ?_, ?_, ?_, ?_⟩ <;> simp [vecCopy, vecNegateW, vecRotateW, vecAutomorphismW, vecSwitchRing, vecZero]
+
+example : vecRotate 1 2 3 [[1, 2], [3, 4]] = [[-2, 1], [-4, 3], [0, 0]] := by decide
+example : vecCopy 2 1 [[1, 2], [3, 4]] = [[1, 2]] := by decide
+
+/-- scalar add / sub on a chosen limb: inside the guard the result is `b` (copy rule) with `a` combined on limb
+`bLimb`; outside the guard the call panics (`assert!(b_limb < min_size)`) -/
+theorem add_scalar_size_rule (n resSize : Nat) (a : Poly) (b : Col) (bLimb : Nat) (h : bLimb < min b.length resSize) :
+    ∃ r, vecAddScalarO w64 n resSize a b bLimb = .ok r ∧ r.length = resSize ∧
+      ∀ j, j < resSize → r[j]? = some (match b[j]? with
+        | some bj => if j = bLimb then znxAdd a bj else bj
+        | none => znxZero n) := by
+  obtain ⟨r, h1, h2, h3⟩ := vecAddScalar_rule w64 n resSize a b bLimb h
+  exact ⟨r, h1, h2, fun j hj => (h3 j hj).trans (by cases b[j]? <;> rfl)⟩
+
+theorem sub_scalar_size_rule (n resSize : Nat) (a : Poly) (b : Col) (bLimb : Nat) (h : bLimb < min b.length resSize) :
+    ∃ r, vecSubScalarO w64 n resSize a b bLimb = .ok r ∧ r.length = resSize ∧
+      ∀ j, j < resSize → r[j]? = some (match b[j]? with
+        | some bj => if j = bLimb then znxSub bj a else bj
+        | none => znxZero n) := by
+  obtain ⟨r, h1, h2, h3⟩ := vecSubScalar_rule w64 n resSize a b bLimb h
+  exact ⟨r, h1, h2, fun j hj => (h3 j hj).trans (by cases b[j]? <;> rfl)⟩
+
+theorem scalar_guard (n resSize : Nat) (a : Poly) (b : Col) (bLimb : Nat) (h : ¬ bLimb < min b.length resSize) :
+    vecAddScalarO w64 n resSize a b bLimb = .panic "assert" ∧ vecSubScalarO w64 n resSize a b bLimb = .panic "assert" := by
+  unfold vecAddScalarO vecSubScalarO; simp [h]
+
+/-- the in-place scalar forms touch exactly one limb -/
+theorem scalar_assign_rule (res : Col) (resLimb : Nat) (a : Poly) (h : resLimb < res.length) (j : Nat) :
+    vecAddScalarAssignO w64 res resLimb a = .ok (scalarLimbs (fun r => znxAdd r a) resLimb res) ∧
+    (scalarLimbs (fun r => znxAdd r a) resLimb res)[j]? = (res[j]?).map (fun r => if j = resLimb then znxAdd r a else r) := by
+  refine ⟨by unfold vecAddScalarAssignO; simp [h], scalarLimbs_getElem? _ _ _ _⟩
+
+/-! ## the NTT120 big accumulator (`i128`) follows the same rules
+
+its functions are separate code (`reference/ntt120/vec_znx_big.rs`); the model mirrors their control
+flow separately and these theorems identify them with the generic operations at `w128`. -/
+
+theorem ntt120_big_twins (n resSize : Nat) (a b res : Col) :
+    ntt120BigAdd n resSize a b = vecAddW w128 n resSize a b ∧
+    ntt120BigAddSmall n resSize a b = vecAddW w128 n resSize a b ∧
+    ntt120BigSub n resSize a b = vecSubW w128 n resSize a b ∧
+    ntt120BigSubSmallA n resSize a b = vecSubW w128 n resSize a b ∧
+    ntt120BigSubSmallB n resSize a b = vecSubW w128 n resSize a b ∧
+    ntt120BigSubNegateAssign res a = vecSubNegateAssignW w128 res a :=
+  ⟨ntt120BigAdd_eq _ _ _ _, ntt120BigAddSmall_eq _ _ _ _, ntt120BigSub_eq _ _ _ _, ntt120BigSubSmallA_eq _ _ _ _,
+    ntt120BigSubSmallB_eq _ _ _ _, ntt120BigSubNegateAssign_eq _ _⟩
+
+/-- for odd `g` the in-place NTT120 automorphism (which scatters into the buffer it copied from) is `σ_g` -/
+theorem ntt120_big_automorphism_assign (k : Nat) (g : Int) (hg : g % 2 = 1) (res : Col)
+    (hl : ∀ l ∈ res, l.length = 2 ^ k) (hr : ∀ l ∈ res, AllP I128 l) :
+    ntt120BigAutomorphismAssign g res = vecAutomorphismAssignW w128 g res := by
+  unfold ntt120BigAutomorphismAssign vecAutomorphismAssignW
+  apply List.map_congr_left
+  intro l hlm
+  exact autoInto_eq_auto negOn128 g l l (by rw [hl l hlm]; positivity) rfl (hr l hlm) (hr l hlm)
+    (by rw [hl l hlm]; exact galOk_pow2 k hg)
+
+example : ntt120BigSubSmallA 1 3 [[1]] [[10], [20]] = [[-9], [-20], [0]] := by decide
+
+/-! ## wrapping: the limb-wise operations are exact modulo `2^64` over the whole `i64` range -/
+
+theorem add_exact_mod (a b : Poly) (i : Nat) (hi : i < a.length) (hb : i < b.length) :
+    ∃ r, (znxAdd a b)[i]? = some r ∧ I64 r ∧ r % 2 ^ 64 = (a[i] + b[i]) % 2 ^ 64 ∧ (I64 (a[i] + b[i]) → r = a[i] + b[i]) := by
+  refine ⟨w64 (a[i] + b[i]), ?_, w64_I64 _, w64_congr _, fun h => w64_of_I64 h⟩
+  simp [znxAddW, List.getElem?_zipWith, List.getElem?_eq_getElem hi, List.getElem?_eq_getElem hb]
+
+theorem sub_exact_mod (a b : Poly) (i : Nat) (hi : i < a.length) (hb : i < b.length) :
+    ∃ r, (znxSub a b)[i]? = some r ∧ I64 r ∧ r % 2 ^ 64 = (a[i] - b[i]) % 2 ^ 64 ∧ (I64 (a[i] - b[i]) → r = a[i] - b[i]) := by
+  refine ⟨w64 (a[i] - b[i]), ?_, w64_I64 _, w64_congr _, fun h => w64_of_I64 h⟩
+  simp [znxSubW, List.getElem?_zipWith, List.getElem?_eq_getElem hi, List.getElem?_eq_getElem hb]
+
+theorem negate_exact_mod (a : Poly) (i : Nat) (hi : i < a.length) :
+    ∃ r, (znxNegate a)[i]? = some r ∧ I64 r ∧ r % 2 ^ 64 = (-a[i]) % 2 ^ 64 ∧ (I64 (-a[i]) → r = -a[i]) := by
+  refine ⟨w64 (-a[i]), ?_, w64_I64 _, w64_congr _, fun h => w64_of_I64 h⟩
+  simp [znxNegateW, List.getElem?_eq_getElem hi]
+
+example : znxAdd [2 ^ 63 - 1] [1] = [-2 ^ 63] := by decide
+example : znxNegate [-2 ^ 63] = [-2 ^ 63] := by decide
 
 end C09
